@@ -198,6 +198,43 @@ type ioSite struct {
 	Call   ssa.CallInstruction
 	Method string
 	Idx    int // index among the same method's sites in Fn, in block order
+	Lift   *liftedSite
+}
+
+// A liftedSite describes a fileIO invoke that sits in a private helper of a designated writer
+// (the tail of Repair's loop moved into `writeRepairedFile(i, entry, data) (string, error)`), in
+// terms of the writer: the helper call stands for the write, with the path, data and error values
+// the writer sees.
+type liftedSite struct {
+	Inner            *ssa.Function       // the helper containing the invoke
+	At               ssa.CallInstruction // the call of the helper in the writer
+	Path, Data, Errv ssa.Value           // writer-level values (Path may be nil if the helper neither receives nor returns it)
+}
+
+// at: the instruction that stands for the write in the function the rules reason about.
+func (s ioSite) at() ssa.CallInstruction {
+	if s.Lift != nil {
+		return s.Lift.At
+	}
+	return s.Call
+}
+func (s ioSite) pathVal() ssa.Value {
+	if s.Lift != nil {
+		return s.Lift.Path
+	}
+	return s.Call.Common().Args[0]
+}
+func (s ioSite) dataVal() ssa.Value {
+	if s.Lift != nil {
+		return s.Lift.Data
+	}
+	return s.Call.Common().Args[1]
+}
+func (s ioSite) errVal() ssa.Value {
+	if s.Lift != nil {
+		return s.Lift.Errv
+	}
+	return s.Call.Value()
 }
 
 func (s ioSite) key() string { return fmt.Sprintf("%s:%s#%d", shortName(s.Fn), s.Method, s.Idx) }
@@ -229,7 +266,7 @@ func (w *World) fileIOSites() []ioSite {
 				continue
 			}
 			m := cc.Method.Name()
-			out = append(out, ioSite{fn, c, m, cnt[m]})
+			out = append(out, ioSite{Fn: fn, Call: c, Method: m, Idx: cnt[m]})
 			cnt[m]++
 		}
 	}
